@@ -1,4 +1,4 @@
-//! C19, second part (docs/C19B-NOTES.md): `RawValue` as a struct field, and `RawValue` ⇄ `Value`.
+//! C19, second part (docs/STREAMRAW-NOTES.md, "Third round"): `RawValue` as a struct field, and `RawValue` ⇄ `Value`.
 //!
 //! * `rawfld <cfg> <shape> <hex doc> => str|slice|reader` — real `serde_derive` structs whose fields are `Box<RawValue>` /
 //!   `Option<Box<RawValue>>` (shape `s1`; `s2` = with `deny_unknown_fields`; `s3` = next to a typed field `Option<u32>`),
